@@ -9,11 +9,13 @@ mod rng;
 mod util;
 
 mod c10;
+mod c18;
 mod c19;
 mod gen;
 mod htmlk;
 mod opts;
 mod ser;
+mod treegen;
 
 use report::Report;
 
@@ -25,6 +27,10 @@ pub struct Cfg {
 }
 
 fn main() {
+    // panics of the code under test are caught per case and reported; keep stderr quiet
+    if std::env::var("CVH_PANIC_TRACE").is_err() {
+        std::panic::set_hook(Box::new(|_| {}));
+    }
     let args: Vec<String> = std::env::args().collect();
     if args.len() < 3 {
         eprintln!("usage: cvh run <Cid> [--tier T] [--seed N] [--full] [--out F] | cvh replay <Cid> <kind> <input>");
@@ -59,6 +65,7 @@ fn main() {
             match id.as_str() {
                 "C19" => c19::run(&cfg, &mut rep),
                 "C10" => c10::run(&cfg, &mut rep),
+                "C18" => c18::run(&cfg, &mut rep),
                 _ => {
                     eprintln!("unknown property {}", id);
                     std::process::exit(2);
@@ -77,6 +84,7 @@ fn main() {
             let r = match id {
                 "C19" => c19::replay(kind, input),
                 "C10" => c10::replay(kind, input),
+                "C18" => c18::replay(kind, input),
                 _ => Err(format!("unknown property {}", id)),
             };
             match r {
